@@ -32,6 +32,7 @@ func Solvers(timeoutS int) []SolverCfg {
 	ms := fmt.Sprint(timeoutS * 1000)
 	return []SolverCfg{
 		{"z3-new", []string{"z3-new", "-T:" + fmt.Sprint(timeoutS), "-smt2"}},
+		{"z3-new-nac", []string{"z3-new", "-T:" + fmt.Sprint(timeoutS), "smt.auto_config=false", "-smt2"}},
 		{"z3", []string{"z3", "-T:" + fmt.Sprint(timeoutS), "-smt2"}},
 		{"cvc5", []string{"cvc5", "--tlimit=" + ms, "--lang=smt2", "--produce-models"}},
 	}
@@ -93,20 +94,40 @@ func Discharge(o *Obligation, dir string, idx int, timeoutS int, allAgree bool) 
 		quick = timeoutS
 	}
 	total := 0.0
-	// stage 1
+	// stage 1: the two z3-new configurations, short budget, first decisive answer wins
 	{
 		ctx, cancel := context.WithTimeout(context.Background(), time.Duration(quick+1)*time.Second)
-		s := Solvers(quick)[0]
-		st, out, secs := runSolver(ctx, s, file)
-		cancel()
-		total += secs
-		if st == "sat" || st == "unsat" {
-			res.Status, res.Solver, res.Output, res.Seconds = st, s.Name, out, total
-			if !allAgree {
-				res.OK = st == want
-				res.Model = parseModel(o, out)
-				return res
+		type a1 struct {
+			st, out, name string
+			secs          float64
+		}
+		ch1 := make(chan a1, 2)
+		for _, s := range Solvers(quick)[:2] {
+			go func(s SolverCfg) {
+				st, out, secs := runSolver(ctx, s, file)
+				ch1 <- a1{st, out, s.Name, secs}
+			}(s)
+		}
+		done := false
+		for i := 0; i < 2; i++ {
+			a := <-ch1
+			if done {
+				continue
 			}
+			if a.st == "sat" || a.st == "unsat" {
+				done = true
+				cancel()
+				total += a.secs
+				res.Status, res.Solver, res.Output, res.Seconds = a.st, a.name, a.out, total
+			} else if i == 1 {
+				total += a.secs
+			}
+		}
+		cancel()
+		if done && !allAgree {
+			res.OK = res.Status == want
+			res.Model = parseModel(o, res.Output)
+			return res
 		}
 	}
 	// stage 2: race
